@@ -198,6 +198,82 @@ func main() {
 		})
 	}
 	sort.Strings(access)
+	// 6. clock readings of the access-node controllers: per exported handler, how many `watch.Now()`
+	// call sites it reaches (its own body plus the methods of the same receiver it calls, call sites
+	// counted with multiplicity) and how many of them sit inside a loop
+	var clockReads []string
+	for _, rel := range []string{"accessnode/presentation/api/payment/info_controller.go", "accessnode/presentation/api/payment/progress_controller.go", "accessnode/presentation/api/wallet/amount_controller.go"} {
+		cf := parse(rel)
+		type minfo struct {
+			direct, inLoop int
+			calls          []string
+			exported       bool
+			recv           string
+		}
+		methods := map[string]*minfo{}
+		for _, d := range cf.Decls {
+			fd, ok := d.(*ast.FuncDecl)
+			if !ok || fd.Recv == nil || fd.Body == nil || len(fd.Recv.List) == 0 || len(fd.Recv.List[0].Names) == 0 {
+				continue
+			}
+			recvName := fd.Recv.List[0].Names[0].Name
+			mi := &minfo{exported: ast.IsExported(fd.Name.Name), recv: strings.TrimPrefix(text(fd.Recv.List[0].Type), "*")}
+			var walk func(n ast.Node, loop bool)
+			walk = func(n ast.Node, loop bool) {
+				ast.Inspect(n, func(x ast.Node) bool {
+					switch v := x.(type) {
+					case *ast.ForStmt:
+						if v != n {
+							walk(v.Body, true)
+							return false
+						}
+					case *ast.RangeStmt:
+						if v != n {
+							walk(v.Body, true)
+							return false
+						}
+					case *ast.CallExpr:
+						name := sel(v.Fun)
+						if strings.HasSuffix(name, ".watch.Now") || name == "watch.Now" {
+							mi.direct++
+							if loop {
+								mi.inLoop++
+							}
+						} else if strings.HasPrefix(name, recvName+".") && strings.Count(name, ".") == 1 {
+							mi.calls = append(mi.calls, strings.TrimPrefix(name, recvName+"."))
+						}
+					}
+					return true
+				})
+			}
+			walk(fd.Body, false)
+			methods[fd.Name.Name] = mi
+		}
+		var total func(name string, depth int) (int, int)
+		total = func(name string, depth int) (int, int) {
+			mi := methods[name]
+			if mi == nil || depth > 8 {
+				return 0, 0
+			}
+			t, l := mi.direct, mi.inLoop
+			for _, c := range mi.calls {
+				ct, cl := total(c, depth+1)
+				t, l = t+ct, l+cl
+			}
+			return t, l
+		}
+		var names []string
+		for n := range methods {
+			names = append(names, n)
+		}
+		sort.Strings(names)
+		for _, n := range names {
+			if methods[n].exported {
+				t, l := total(n, 0)
+				clockReads = append(clockReads, fmt.Sprintf("  (%s, %d, %d)", q(methods[n].recv+"."+n), t, l))
+			}
+		}
+	}
 	var b strings.Builder
 	b.WriteString("(* GENERATED by /verif/tools/genendpoints from /repo's current source. Do not edit. *)\n")
 	b.WriteString("From RV Require Import model.Base.\nLocal Open Scope string_scope.\n\n")
@@ -209,6 +285,7 @@ func main() {
 	b.WriteString("(* validatornode/main.go: the engines handed to presentation.NewNode after the host *)\nDefinition node_engines : list string := [" + strings.Join(nodeArgs, "; ") + "].\n\n")
 	b.WriteString("(* api.NewHost arguments in main.go and the server settings set in host.go *)\nDefinition host_wiring : list (string * string) := [\n" + strings.Join(hostSets, ";\n") + "\n].\n\n")
 	b.WriteString("(* accessnode/presentation/node.go: controller constructor, its first argument (sender-parameter = NewNode's own sender) *)\nDefinition access_wiring : list (string * string) := [\n" + strings.Join(access, ";\n") + "\n].\n")
+	b.WriteString("\n(* access-node handlers: handler, watch.Now() call sites it reaches (with multiplicity), how many of them inside a loop *)\nDefinition clock_reads : list (string * nat * nat) := [\n" + strings.Join(clockReads, ";\n") + "\n].\n")
 	old, _ := os.ReadFile(outPath)
 	if string(old) != b.String() {
 		if err := os.WriteFile(outPath, []byte(b.String()), 0o644); err != nil {
